@@ -18,6 +18,7 @@ import (
 	"reduction.dev/reduction/proto/workerpb"
 	"reduction.dev/reduction/storage/locations"
 	"reduction.dev/reduction/storage/snapshots"
+	"reduction.dev/reduction/util/vhook"
 )
 
 type Job struct {
@@ -231,6 +232,7 @@ func (j *Job) processTaskQueue() {
 // Evaluate the cluster state and transition to paused or running. This
 // method and others that modify the cluster state are invoked serially.
 func (j *Job) evaluateClusterStatus() {
+	vhook.At("job.evaluate", j.clock.Now())
 	// Evaluate the cluster state
 	if purged := j.registry.Purge(); len(purged) > 0 {
 		j.log.Info("registry purged", "nodes", purged)
@@ -269,6 +271,7 @@ func (j *Job) evaluateClusterStatus() {
 			break
 		}
 
+		vhook.At("job.assembly", assembly)
 		j.status.Set(StatusAssemblyStarting)
 		j.assembly = assembly
 
